@@ -473,6 +473,10 @@ def _match_form(case, f, opmap, raw, mode, cur):
             r = mc[k]
             if r and r[0] == ("gp32" if mode == 64 else "gp16"):
                 want67 = True
+    if mode == 64 and mem_case is not None and not mem_case["base"] and not mem_case["index"] and mem_case.get("addr") == "abs" and \
+            0x80000000 <= mem_case["disp"] <= 0xFFFFFFFF:
+        # an unsigned 32-bit absolute address with bit 31 set is only reachable with 32-bit addressing (zero extension)
+        want67 = True
     if case["name"] in ("invlpga", "monitor", "monitorx", "umonitor", "clzero", "vmload", "vmsave", "vmrun"):
         want67 = addr_override  # implicit-address forms: judged by the decoders
     if addr_override != want67:
